@@ -86,6 +86,8 @@ def ctrl_on_disconnected(self: Obj("AxolotlControlLayer"), yowLayerEvent: Obj("Y
     ensures(implies(old(self._reboot_connection), n_events("setProp") == 1 and event_arg("setProp", 0, 0) == P_PASSIVE
                     and event_arg("setProp", 0, 1) == False))
     ensures(n_events("manager.set_prekeys_as_sent") == 0)
+    # the base class handler runs too (it forgets the manager of the closed connection), once, with this event
+    ensures(n_events("base.on_disconnected") == 1 and same_obj(event_arg("base.on_disconnected", 0, 0), yowLayerEvent))
     propagates("netiface.connect", ensures=self._reboot_connection == False)
 
 
@@ -117,6 +119,9 @@ def ctrl_on_connected(self: Obj("AxolotlControlLayer"), yowLayerEvent: Obj("YowL
     ensures(n_events("manager.set_prekeys_as_sent") == 0 and n_events("manager.level_prekeys") == 1)
     ensures(implies(len(self._unsent_prekeys) > 0, n_events("setProp") == 1 and event_arg("setProp", 0, 0) == P_PASSIVE and event_arg("setProp", 0, 1) == True))
     ensures(implies(len(self._unsent_prekeys) == 0, n_events("setProp") == 0))
+    # the base class handler runs first (it installs the profile's key manager), once, with this event
+    ensures(n_events("base.on_connected") == 1 and same_obj(event_arg("base.on_connected", 0, 0), yowLayerEvent)
+            and at_event("manager.level_prekeys", 0, lambda: n_events("base.on_connected") == 1))
     propagates("manager.level_prekeys", ensures=self._unsent_prekeys == old(self._unsent_prekeys))
     propagates("manager.load_unsent_prekeys", ensures=self._unsent_prekeys == old(self._unsent_prekeys))
 
@@ -143,6 +148,11 @@ def adjustArray(self: Obj("AxolotlControlLayer"), arr: Bytes) -> Bytes:
     pass
 
 
+def tail1(x):
+    """x[1:] as Python computes it for every x (the empty string included): contract text does not clamp slice bounds by itself"""
+    return x[(1 if 1 <= len(x) else len(x)):]
+
+
 @contract(CTRL, "AxolotlControlLayer.flush_keys")
 def flush_keys(self: Obj("AxolotlControlLayer"), signed_prekey: Opaque("signedprekey"), prekeys: ListObj("prekey"), reboot_connection: Bool):
     requires(self._manager is not None)
@@ -157,6 +167,13 @@ def flush_keys(self: Obj("AxolotlControlLayer"), signed_prekey: Opaque("signedpr
                        given=lambda: self._manager is not None))
     # ... and its error continuation is the handler that touches nothing
     ensures(same_obj(event_arg("_sendIq", 0, 2), bound_method(self, "onSentKeysError")))
+    # what is uploaded: the identity key and the signed prekey WITHOUT the leading key-type byte, the signature unchanged, ids as
+    # big-endian bytes (adjustId / adjustArray: checked natively), the registration id; one entry per one-time key: id -> public key
+    ensures(event_arg("SetKeysIq", 0, 0) == self.adjustArray(tail1(getter("pubkey.serialize", getter("field.getPublicKey", field(self._manager, "identity"))))))
+    ensures(event_arg("SetKeysIq", 0, 1) == (self.adjustId(getter("signedprekey.getId", signed_prekey)),
+                                            self.adjustArray(tail1(getter("pubkey.serialize", getter("keypair.getPublicKey", getter("signedprekey.getKeyPair", signed_prekey))))),
+                                            self.adjustArray(getter("signedprekey.getSignature", signed_prekey))))
+    ensures(event_arg("SetKeysIq", 0, 4) == self.adjustId(field(self._manager, "registration_id")))
     propagates("*")
 
 
